@@ -1,11 +1,11 @@
 import Hm.RespLaws
 
-/-- C02 for the repaired tree (normalised boundary): every way of cutting a response stream into
+/-- C02 for the repaired tree (normalised boundary), for every header line limit `hl` the caller may have set: every way of cutting a response stream into
     deliveries ends like the one-piece delivery — same verdict class, same state, same boundary -/
-theorem C02_response_delivery_independent (d : Bytes) (ds : List Bytes) :
+theorem C02_response_delivery_independent (hl : Option Nat) (d : Bytes) (ds : List Bytes) :
     let c0 : GConn Fail RespState := { st := Response.new, pending := [], total := 0, verdict := .more }
-    Sys.Equiv (respSys.run c0 (d :: ds)) (respSys.run c0 [d ++ ds.flatten]) :=
-  Sys.run_flatten respSys_lawful _ respInv_new d ds
+    Sys.Equiv ((respSys hl).run c0 (d :: ds)) ((respSys hl).run c0 [d ++ ds.flatten]) :=
+  Sys.run_flatten (respSys_lawful hl) _ respInv_new d ds
 
 /-- the same for the chunked-body decoder on its own (C05, delivery part) -/
 theorem C05_chunk_delivery_independent (d : Bytes) (ds : List Bytes) :
@@ -14,7 +14,7 @@ theorem C05_chunk_delivery_independent (d : Bytes) (ds : List Bytes) :
   Sys.run_flatten chunkSys_lawful _ trivial d ds
 
 /-- C09 (first half), requests and responses: bytes after a complete message change nothing -/
-theorem C09_response_suffix_irrelevant {s' : RespState} {raw : Bytes} {c : Nat}
-    (h : respSys.parse Response.new raw = .ok .complete s' c) (t : Bytes) :
-    respSys.parse Response.new (raw ++ t) = .ok .complete s' c :=
-  Sys.parse_append_complete respSys_lawful respInv_new h t
+theorem C09_response_suffix_irrelevant (hl : Option Nat) {s' : RespState} {raw : Bytes} {c : Nat}
+    (h : (respSys hl).parse Response.new raw = .ok .complete s' c) (t : Bytes) :
+    (respSys hl).parse Response.new (raw ++ t) = .ok .complete s' c :=
+  Sys.parse_append_complete (respSys_lawful hl) respInv_new h t
